@@ -1,6 +1,9 @@
 // c11_formats.hpp — per-format glue for the C11 fault enumeration: which GIL image type is "native" for a seed.
 #pragma once
 #include "c11_faults.hpp"
+#include <dirent.h>
+#include <sys/stat.h>
+#include <ctime>
 
 namespace c11 {
 
@@ -10,7 +13,7 @@ void seed_units(vh::Ctx& ctx, Seed const& s, Opts const& o, bool pairs)
     auto unit = [&](const char* what, std::vector<Case> cases) {
         std::string u = std::string(s.name) + "/" + what;
         ctx.cur = u;
-        ioc::run_unit(ctx, u, [&](Emit& e) { run_cases<Tag, NativeImg>(e, s, cases, o, s.name); }, 30.0);
+        ioc::run_unit(ctx, u, [&](Emit& e) { run_cases<Tag, NativeImg>(e, s, cases, o, s.name); }, 600.0);
     };
     if (pairs) { unit("pairs", pair_deviations(s)); return; }
     std::vector<Case> all = single_deviations(s, o.all256, true), part[3];
@@ -25,8 +28,25 @@ inline Opts opts_from(vh::Ctx& ctx)
     return o;
 }
 // every `stride`-th seed of the format (stride 1 = all); the small 4x3 member of each variant comes first in the seed table
+// scratch files of workers that were killed by the watchdog stay behind: drop c11-* files older than 10 minutes
+inline void drop_stale_scratch()
+{
+    std::string d = ioc::io_dir();
+    if (DIR* dir = opendir(d.c_str()))
+    {
+        time_t now = time(nullptr);
+        while (dirent* e = readdir(dir))
+        {
+            if (std::strncmp(e->d_name, "c11-", 4) != 0) continue;
+            std::string p = d + "/" + e->d_name; struct stat st;
+            if (stat(p.c_str(), &st) == 0 && now - st.st_mtime > 600) unlink(p.c_str());
+        }
+        closedir(dir);
+    }
+}
 template <class F> void for_seeds(vh::Ctx& ctx, const char* fmt, F f)
 {
+    drop_stale_scratch();
     long only_small = ctx.B("small_only", 0);
     for (Seed const& s : io_seeds())
     {
